@@ -57,6 +57,7 @@ def do_replay(prop, spec, path):
                'tier': rp.get('tier', 'quick'),
                'cpu_s': spec.get('cpu_s', 120), 'wall_s': spec.get('wall_s', 600),
                'replay': {'config': rp['config'], 'ops': rp['ops']},
+               'known': rp.get('inrun_known') or [],
                'want_events': True}
         r = z.run(job)
     finally:
@@ -73,6 +74,13 @@ def do_replay(prop, spec, path):
         for e in r.get('events', []):
             log('  ', e[:400])
     if v is None:
+        kh = (r.get('stats') or {}).get('known_hits') or {}
+        kn = batch.load_known()
+        for kid, h in sorted(kh.items()):
+            kf = [k for k in kn if k.get('id') == kid]
+            log('KNOWN-FINDING: property=%s %s [met %d times on this schedule and continued '
+                'past, as in the recorded run]' % (
+                    prop, kf[0].get('what', kid) if kf else kid, h.get('n', 0)))
         log('replay: no violation (property held on this schedule)')
         return 0
     log('replay: %s at step %s: %s' % (v['invariant'], v['step'], v['detail']))
@@ -184,7 +192,8 @@ def main(argv=None):
                     except Exception:
                         harness_mod = object()
                 z = pool.get(r['hashseed'], 0)
-                rp, err = batch.shrink(z, harness_mod, r, tier, cpu_s, wall_s)
+                rp, err = batch.shrink(z, harness_mod, r, tier, cpu_s, wall_s,
+                                       known=inrun_known)
             if rp is None:
                 rp = {'config': r['config'], 'ops': r['ops'],
                       'violation': r['violation'], 'digest': r['digest'],
@@ -192,7 +201,11 @@ def main(argv=None):
                       'shrink_note': err}
             rp.update({'property': prop, 'harness': spec['harness'],
                        'tier': tier, 'seed': r['seed'],
-                       'hashseed': r['hashseed']})
+                       'hashseed': r['hashseed'],
+                       # the recorded findings this run was allowed to continue
+                       # past: part of the replay input, so that the file alone
+                       # (plus the code) decides the execution
+                       'inrun_known': inrun_known})
             v = rp['violation']
             k = batch.match_known(prop, v, known)
             tag = '' if k is None else '.known'
@@ -204,6 +217,7 @@ def main(argv=None):
             z = pool.get(r['hashseed'], 1)
             chk = z.run({'harness': spec['harness'], 'seed': r['seed'],
                          'tier': tier, 'cpu_s': cpu_s, 'wall_s': wall_s,
+                         'known': inrun_known,
                          'replay': {'config': rp['config'],
                                     'ops': rp['ops']}})
             repro = (chk.get('status') == 'ok' and
